@@ -114,9 +114,19 @@ fn error_page(status: u32) -> Vec<u8> {
 
 const GARBAGE: &[u8] = b"{ this is not json ]]] \x00\x01";
 
-/// Body ids: < 100_000 are document versions; 100_000 + status are error pages.
+/// A complete 200 response that is not currency data (a captive portal, a
+/// misconfigured endpoint).
+fn portal_page(k: u32) -> Vec<u8> {
+    let filler = "<p>please log in to use this network</p>".repeat(1 + (k as usize % 5) * 30);
+    format!("<!doctype html><html><body><h1>Welcome</h1>{}</body></html>\n", filler).into_bytes()
+}
+
+/// Body ids: < 100_000 are document versions; 100_000 + status are error
+/// pages; >= 200_000 are non-currency pages served with status 200.
 fn body_bytes(id: u32, size_class: u32) -> Vec<u8> {
-    if id >= 100_000 {
+    if id >= 200_000 {
+        portal_page(id - 200_000)
+    } else if id >= 100_000 {
         error_page(id - 100_000)
     } else {
         document(id, size_class)
@@ -144,6 +154,10 @@ fn body_ids(sc: &Scenario) -> Vec<u32> {
 
 fn versions(sc: &Scenario) -> Vec<u32> {
     body_ids(sc).into_iter().filter(|b| *b < 100_000).collect()
+}
+
+fn portal_ids(sc: &Scenario) -> Vec<u32> {
+    body_ids(sc).into_iter().filter(|b| *b >= 200_000).collect()
 }
 
 // ----- executing one history --------------------------------------------------------
@@ -363,6 +377,11 @@ fn describe(b: &Option<Vec<u8>>, sc: &Scenario) -> String {
                     return format!("<complete document v{}>", v);
                 }
             }
+            for id in portal_ids(sc) {
+                if *x == body_bytes(id, sc.doc_size) {
+                    return format!("<complete non-currency page {} served with status 200>", id);
+                }
+            }
             for v in versions(sc) {
                 let d = document(v, sc.doc_size);
                 if !x.is_empty() && x.len() < d.len() && d[..x.len()] == x[..] {
@@ -453,7 +472,12 @@ fn oracle(sc: &Scenario, obs: &[RunObs]) -> Option<Violation> {
         if matches!(o.result, ProcResult::Crashed) {
             continue;
         }
-        let newest = new_bodies.last().cloned();
+        // The newest completed 200 body - but only if it is currency data: a tree
+        // may (or may not) refuse to install a 200 response that is something else.
+        let newest = match o.completed_200.last() {
+            Some(id) if *id < 100_000 => new_bodies.last().cloned(),
+            _ => None,
+        };
         let clean = !o.faults_fired_read_side && !o.faults_fired_write_side;
         // O4': a refresh that completed with no local error must be persisted
         if let (Some(n), true) = (&newest, clean) {
@@ -554,9 +578,12 @@ fn oracle(sc: &Scenario, obs: &[RunObs]) -> Option<Violation> {
                         version_of(n)
                     } else if !o.faults_fired_read_side {
                         // falls back to (or simply uses) what was there, if readable
-                        match (&o.before, newest.as_ref()) {
-                            (Some(b), None) => version_of(b),
-                            _ => None, // either is acceptable; not pinned
+                        match (&o.before, o.completed_200.is_empty()) {
+                            // nothing new arrived: what was there must be used
+                            (Some(b), true) => version_of(b),
+                            // a 200 response completed (currency data or not) and may
+                            // have been installed: either is acceptable; not pinned
+                            _ => None,
                         }
                     } else {
                         None
@@ -677,7 +704,23 @@ fn gen_server(rng: &mut Rng, version: u32, doc_len: u32) -> Server {
                 max_chunk,
             }
         }
-        9 => Server::Stall,
+        9 => {
+            if rng.chance(1, 2) {
+                Server::Stall
+            } else {
+                // status 200, complete, but not currency data
+                Server::Respond {
+                    status: 200,
+                    body: 200_000 + rng.below(5) as u32,
+                    content_length: rng.chance(1, 2),
+                    cut_after: None,
+                    reset: false,
+                    stall_after: None,
+                    latency_ns: latency,
+                    max_chunk,
+                }
+            }
+        }
         10 => Server::Refuse,
         _ => {
             if rng.chance(1, 2) {
@@ -1141,7 +1184,7 @@ impl Harness for C20 {
         "One evaluation = one seeded history of 1..5 process runs (start-up via load_live_currency, full load(), or --fetch-currency) \
          of the real cli/src/config.rs over one persistent simulated file system, from a seeded prior cache state \
          {absent, fresh, stale, mtime in the future, unreadable fresh/stale, empty}, with per-run server behaviour \
-         {200 complete with/without Content-Length, 200 cut after k bytes (close or reset), stall mid-body, 3xx/4xx/5xx with error page, \
+         {200 complete with/without Content-Length, 200 complete but not currency data, 200 cut after k bytes (close or reset), stall mid-body, 3xx/4xx/5xx with error page, \
          non-200 with a real document, stall, refused, DNS failure}, seeded chunking, file-system faults (EACCES/ENOSPC/EROFS/EIO/EXDEV/EINTR/EDQUOT/EMFILE/short write \
          at a chosen call), clock jumps between runs, and - for 3 of 4 histories - a crash sweep: the history is re-executed once for \
          every file-system/transfer step of one chosen run (and three times for each write: 1, 500 and 999 permille written) with the process killed there. \
